@@ -17,7 +17,7 @@ RULE = ("a case = (directory|single-file archive, history of <= 25 operations op
         "(sorted triples, filenames(), read() digest of every file, verify_all(), len, digests of every file on disk) is compared "
         "with the Lean model, which is fed the same history; every written directory file (<= 64 KiB sample) and damaged copies of "
         "it are decoded independently by the model and compared with what a fresh VPK() makes of them. non-trivial = the history "
-        "stores at least one non-empty payload and reopens the archive; distinct by content.")
+        "creates or stores at least one file and reopens the archive; distinct by content.")
 TRUSTED = ["model: lean/Srctools/Model/C13.lean (hand-written from vpk.py; FileInfo.write/read/verify, write_dirfile, load_dirfile, "
            "_get_file_parts with posixpath.split/normpath, new_file/add_file/__delitem__/__contains__), tied by the differential run "
            "and by the constants/format strings regenerated from vpk.py (Gen/Vpk.lean)",
@@ -122,8 +122,48 @@ def collision_cases(rng):
                         ['open', 'r', None], ['check']]}
 
 
+SESSION_BODIES = ['nothing', 'new-only', 'empty-add-only', 'empty-write-empty-file', 'empty-write-full-file', 'new+empty-add',
+                  'empty+nonempty-add', 'del-only', 'new-then-del', 'has-only']
+SESSION_ENDS = [['exit', False], ['exit', True], ['flush'], None]
+
+
+def session_cases(rng):
+    """`with VPK(path, mode) as v: <body>` sessions that rely on __exit__ (normal / exception) or on write_dirfile or on
+    nothing, for mode r/w/a on an existing and on a missing archive, bodies made only of new_file() / zero-length
+    payloads / deletes / nothing, every placement parameter; then reopen read-only and observe."""
+    for single in (False, True):
+        for existing in (True, False):
+            for mode in 'rwa':
+                for body in SESSION_BODIES:
+                    for end in SESSION_ENDS:
+                        limit = rng.choice(U.LIMITS); idx = rng.choice(U.INDEXES)
+                        sp = lambda t: U.spell(rng.choice('spt'), *t)
+                        f, z, g, h = ('materials', 'wall', 'vmt'), ('', 'zero', ''), ('cfg', 'empty', 'cfg'), ('scripts/x', '', 'txt')
+                        ops = []
+                        if existing:
+                            ops += [['open', rng.choice('wa'), limit], ['add', sp(f), ['g', rng.randrange(1000), rng.choice([20, 2000])], idx],
+                                    ['new', sp(z)], rng.choice([['flush'], ['exit', False]])]
+                        ops += [['open', mode, rng.choice([limit, limit, rng.choice(U.LIMITS)])], ['check']]
+                        e = ['g', 0, 0]
+                        ops += {'nothing': [],
+                                'new-only': [['new', sp(g)], ['new', sp(h)]],
+                                'empty-add-only': [['add', sp(g), e, idx], ['add', sp(h), e, rng.choice(U.INDEXES)]],
+                                'empty-write-empty-file': [['write', sp(z), e, idx]],
+                                'empty-write-full-file': [['write', sp(f), e, idx]],
+                                'new+empty-add': [['new', sp(g)], ['add', sp(h), e, idx]],
+                                'empty+nonempty-add': [['add', sp(g), e, idx], ['add', sp(h), ['g', 3, rng.choice([1, 17, 1025])], idx]],
+                                'del-only': [['del', sp(f)]],
+                                'new-then-del': [['new', sp(g)], ['del', sp(g)]],
+                                'has-only': [['has', sp(f)], ['has', sp(g)]]}[body]
+                        ops += [['check']]
+                        if end is not None:
+                            ops += [end]
+                        ops += [['open', 'r', rng.choice(U.LIMITS)], ['check'], ['has', sp(g)], ['has', sp(h)], ['has', sp(f)], ['has', sp(z)]]
+                        yield {'single': single, 'ops': ops}
+
+
 def _nontrivial(case):
-    stores = any(o[0] in ('add', 'write') and len(U.data_of(o[2])) > 0 for o in case['ops'])
+    stores = any(o[0] in ('add', 'write', 'new') for o in case['ops'])
     reopens = sum(1 for o in case['ops'] if o[0] == 'open') >= 2
     return stores and reopens
 
@@ -138,6 +178,9 @@ def _all_cases(ctx):
     cases = [k['witness'] for k in fixed_witnesses()]
     ctx.count('corpus (fixed findings)', len(cases))
     cases += list(grid_cases(rng))
+    sess = list(session_cases(rng))
+    ctx.count('with-block sessions (mode x existing/missing x body x ending)', len(sess))
+    cases += sess
     coll = list(collision_cases(rng))
     ctx.count('same-length same-CRC overwrite histories (all placements)', len(coll))
     cases += coll
@@ -149,7 +192,7 @@ def _all_cases(ctx):
 def _tally(ctx, case):
     ctx.count('archive kind: ' + ('single-file' if case['single'] else 'directory'))
     for o in case['ops']:
-        ctx.count('op ' + o[0] + (' ' + o[1] if o[0] == 'open' else ''))
+        ctx.count('op ' + o[0] + (' ' + o[1] if o[0] == 'open' else (' after an exception' if o[1] else ' normal') if o[0] == 'exit' else ''))
         if o[0] == 'open':
             ctx.count(f'limit {o[2]}')
         if o[0] in ('add', 'write'):
@@ -206,7 +249,7 @@ def correspond(ctx, drivers):
     for c, r in zip(cases, res):
         if len(planted) >= ctx.budget(250, 2500):
             break
-        if r['dirs'] and len(r['dirs'][-1]) < 3000 and c['ops'][-3][0] == 'flush' and not r['fails']:
+        if r['dirs'] and len(r['dirs'][-1]) < 3000 and c['ops'][-3][0] in ('flush', 'exit') and not r['fails']:
             for m in U.mutants(rng, r['dirs'][-1], 1):
                 planted.append({'single': c['single'], 'ops': c['ops'][:-2] + [['plant', m.hex()], ['open', 'r', None], ['check'],
                                                                             ['open', 'a', 16], ['check'],
@@ -461,6 +504,77 @@ def _folder_property(ctx):
             shutil.rmtree(base, ignore_errors=True)
 
 
+def _with_property(ctx):
+    """literal `with VPK(path, mode) as v:` blocks (normal end / exception inside), sessions that rely solely on
+    __exit__: what was in the archive object at a normal end of a writable block is there after reopening — including
+    files created only by new_file() or with zero-length payloads — in the listing, len, `in` and [] in all three
+    spellings; after an exception or in mode r nothing is saved and the exception propagates."""
+    from srctools.vpk import VPK
+    import os
+    rng = ctx.rng
+
+    class Boom(Exception):
+        pass
+
+    bodies = {
+        'new-only': lambda v, idx: [v.new_file(('scripts', 'placeholder', 'txt')), v.new_file('cfg/other')] and {('scripts', 'placeholder', 'txt'): b'', ('cfg', 'other', ''): b''},
+        'empty-add-only': lambda v, idx: [v.add_file('cfg/empty.cfg', b'', arch_index=idx)] and {('cfg', 'empty', 'cfg'): b''},
+        'empty-write-on-new': lambda v, idx: [v.new_file(('cfg', 'w.cfg')).write(b'', idx)] and {('cfg', 'w', 'cfg'): b''},
+        'new+empty-add': lambda v, idx: [v.add_file('cfg/empty.cfg', b'', arch_index=idx), v.new_file(('scripts', 'placeholder', 'txt'))] and {('cfg', 'empty', 'cfg'): b'', ('scripts', 'placeholder', 'txt'): b''},
+        'empty+data': lambda v, idx: [v.add_file('cfg/empty.cfg', b'', arch_index=idx), v.add_file(('a', 'd.bin'), b'D' * 2000, arch_index=idx)] and {('cfg', 'empty', 'cfg'): b'', ('a', 'd', 'bin'): b'D' * 2000},
+        'nothing': lambda v, idx: {},
+    }
+    for single in (False, True):
+        for existing in (True, False):
+            for mode in 'wa':
+                for bname, body in bodies.items():
+                    for raise_inside in (False, True):
+                        limit, idx = rng.choice(U.LIMITS), rng.choice(U.INDEXES)
+                        case = {'with_test': True, 'single': single, 'existing': existing, 'mode': mode, 'body': bname,
+                                'exception': raise_inside, 'limit': limit, 'idx': idx}
+                        ctx.count('with-statement sessions (direct)')
+                        with U.ImplWorld(single) as w:
+                            base = {}
+                            if existing:
+                                with VPK(w.path, mode='w', dir_data_limit=limit) as v:
+                                    v.add_file('materials/wall.vmt', b'"LightmappedGeneric" {}\n' * 100, arch_index=idx)
+                                base = {('materials', 'wall', 'vmt'): b'"LightmappedGeneric" {}\n' * 100}
+                            expect = {} if mode == 'w' else dict(base)
+                            committed = dict(base) if existing else None
+                            propagated = False
+                            try:
+                                with VPK(w.path, mode=mode, dir_data_limit=limit) as v:
+                                    expect.update(body(v, idx))
+                                    if raise_inside:
+                                        raise Boom()
+                            except Boom:
+                                propagated = True
+                            if raise_inside and not propagated:
+                                ctx.witness('with', 'an exception raised inside the with block did not propagate', case)
+                            if not raise_inside:
+                                committed = expect
+                            try:
+                                r = VPK(w.path, mode='r')
+                            except Exception as e:
+                                if committed is None or (raise_inside and (mode == 'w' or not existing)):
+                                    continue        # nothing valid was ever saved: an empty file is left
+                                ctx.witness('with', f'reopening after the with block raised {type(e).__name__}: {e}', case)
+                                continue
+                            if raise_inside and (mode == 'w' or not existing):
+                                ctx.witness('with', 'a block left through an exception saved the directory', case)
+                                continue
+                            got = sorted((i.dir, i._filename, i.ext) for i in r)
+                            if got != sorted(committed) or len(r) != len(committed):
+                                ctx.witness('with', f'after `with VPK(mode={mode!r})` ({bname}, {"exception" if raise_inside else "normal end"}) on '
+                                            f'{"an existing" if existing else "a missing"} archive the reopened archive lists {got}, expected {sorted(committed)}', case)
+                                continue
+                            for t, data in committed.items():
+                                for kd in 'spt':
+                                    nm = U.py_name(U.spell(kd, *t))
+                                    if nm not in r or r[nm].read() != data or not r[nm].verify():
+                                        ctx.witness('with', f'{nm!r} missing / wrong after the with block', case)
+
+
 def _special_known(w):
     """open findings whose witness is not an operation history"""
     from srctools.vpk import VPK
@@ -504,6 +618,7 @@ def search(ctx):
     _readonly_property(ctx)
     _damage_property(ctx)
     _folder_property(ctx)
+    _with_property(ctx)
 
 
 def replay(ctx, payload):
@@ -511,6 +626,8 @@ def replay(ctx, payload):
     if not isinstance(inp, dict) or 'ops' not in inp:
         if isinstance(inp, dict) and ('folder_test' in inp or 'root_test' in inp):
             n0 = len(ctx.witnesses); _folder_property(ctx); return len(ctx.witnesses) == n0
+        if isinstance(inp, dict) and 'with_test' in inp:
+            n0 = len(ctx.witnesses); _with_property(ctx); return len(ctx.witnesses) == n0
         if isinstance(inp, dict) and 'where' in inp:
             n0 = len(ctx.witnesses); _damage_property(ctx); return len(ctx.witnesses) == n0
         if isinstance(inp, dict) and 'triple' in inp:
